@@ -98,7 +98,7 @@ def main() -> int:
             info[j["id"]] = {"label": label, "cfg": {"literal_enums": le}, "features": {"union_models", label.split(":")[1]}}
             jobs.append(j)
     for k, (label, d) in enumerate(docs.interplay_docs()):
-        if not d["components"]["schemas"] or (quick and k % 3 and "enum_same_class_name" not in label and "redeclared_required" not in label and "single_member_union" not in label):
+        if not d["components"]["schemas"] or (quick and k % 3 and "enum_same_class_name" not in label and "redeclared_required" not in label and "single_member_union" not in label and "same_identifier" not in label):
             continue
         for le in ((False, True) if "enum_same_class_name" in label else (k % 2 == 0,)):
             j = run.job(d, want=["manifest"], plan={"fn": "models", "args": {"seed": seed(), "per_model": 12 if "enum_same_class_name" in label else 8}}, cfg={"literal_enums": le})
